@@ -291,10 +291,40 @@ impl Ctx {
                         }
                     }
                 }
+                // (D) every produced token — the first error token included — can be sliced out of the
+                // source: `LexedToken::slice` neither panics nor differs from the token's bytes
+                // (sampled; F-C09-4: the error token of an unexpected multi-byte character used to
+                // cover its first byte only)
+                if self.rep.evaluations % 7 == 1 || toks.iter().any(|t| t.is_error) {
+                    let n_toks = toks.len();
+                    let got = kvh::catch(|| {
+                        let mut lx = Lexer::new(src);
+                        let mut out = vec![];
+                        for _ in 0..n_toks {
+                            match lx.next() {
+                                Some(t) => out.push(t.slice(src).len() == t.source_bytes.len()),
+                                None => break,
+                            }
+                        }
+                        out
+                    });
+                    self.rep.bump("slice_checks");
+                    let ok = matches!(&got, Ok(v) if v.len() == n_toks && v.iter().all(|b| *b));
+                    if !ok {
+                        self.d_fail += 1;
+                        if self.d_fail <= 5 {
+                            self.rep.violation(
+                                "D",
+                                "C09:spec:slice",
+                                json!({"input_hex": kvh::hex(src.as_bytes()), "input": src, "slice": format!("{:?}", got)}),
+                            );
+                        }
+                    }
+                }
                 // (D) the peeking interface: `peek(n)` on a fresh lexer neither panics nor misses a
                 // token — it is the n-th token of the iteration (sampled; F-C09-3)
                 if self.rep.evaluations % 97 == 3 && toks.iter().all(|t| !t.is_error) {
-                    for n in [0usize, 1, 2, 3, 5, 8] {
+                    for n in [0usize, 1, 2, 3, 5, 8, usize::MAX - 1, usize::MAX] {
                         let got = kvh::catch(|| Lexer::new(src).peek(n).map(|t| (t.source_bytes.start, t.source_bytes.end)));
                         let want = toks.get(n).map(|t| (t.sb, t.eb));
                         self.rep.bump("peek_checks");
